@@ -472,7 +472,7 @@ func (p *forStmt) End(cb *CodeBuilder, src ast.Node) {
 		cb.endBlockStmt(&p.old)
 	}
 	cb.emitStmt(&target.ForStmt{
-		Init: p.init, Cond: p.cond, Post: post, Body: p.handleFor(p.body, 0),
+		Init: ctrlStmt(p.init), Cond: ctrlExpr(p.cond), Post: ctrlStmt(post), Body: p.handleFor(p.body, 0),
 	})
 }
 
